@@ -31,6 +31,7 @@ ASSUMPTIONS = [
     "self-transitions reported by the callback (APOPTOTIC->APOPTOTIC, TERMINATED->TERMINATED) are not moves",
 ]
 MIN_NONTRIVIAL_FRACTION = 0.2
+RULE += ' Added after the seeded rounds: Clock gaps from 0.25 s to 40 days, limits from 30 s to 25 h; 1/30 of the histories repeat one call 1001+ times (bound of the event log).'
 EXHAUSTIVE_NOTE = {"quick": "all op sequences of length 1..3 over 16 ops x 4 configurations (4*(16+256+4096) = 17472 histories), complete",
                    "thorough": "all op sequences of length 1..4 over 16 ops x 4 configurations (279616 histories), complete"}
 
@@ -55,8 +56,24 @@ _op = st.one_of(
 ).map(list)
 
 
+def _expand(ops):
+    """["rep", n, op] stands for n copies of op: histories longer than the 1000-entry event log"""
+    out = []
+    for op in ops:
+        if op[0] == "rep":
+            out.extend(list(op[2]) for _ in range(op[1]))
+        else:
+            out.append(op)
+    return out
+
+
+_rep = st.tuples(st.just("rep"), st.sampled_from([1001, 1010]), st.sampled_from([["tick", 0], ["heartbeat"], ["error"], ["check"], ["tick", 1], ["renew", 1, False]])).map(list)
+
+
 def strategy(tier):
-    return st.fixed_dictionaries({"cfg": _cfg, "ops": st.lists(_op, min_size=1, max_size=25)})
+    plain = st.lists(_op, min_size=1, max_size=25)
+    long = st.tuples(st.lists(_op, max_size=5), _rep, st.lists(_op, min_size=1, max_size=8)).map(lambda t: t[0] + [t[1]] + t[2])
+    return st.fixed_dictionaries({"cfg": _cfg, "ops": st.integers(0, 29).flatmap(lambda k: long if k == 0 else plain)})
 
 
 _ENUM_CFG = [
@@ -115,7 +132,7 @@ def _judge(case, out, clock, tel):
     t_start = None
     t_last = None
 
-    for i, op in enumerate(case["ops"]):
+    for i, op in enumerate(_expand(case["ops"])):
         name = op[0]
         if name == "adv":
             clock.advance(op[1])
